@@ -254,6 +254,8 @@ def realign_closures(j, table):
         tcs = tab_by_parent.get(par)
         if not tcs:
             continue
+        if any(c.get("converted_from_fn") for c in cls):
+            continue        # matched explicitly a moment ago (named initialiser function of a static)
         cls = sorted(cls, key=lambda b: _closure_index(b["path"]))
         tcs = sorted(tcs, key=_closure_index)
         fps = {c["path"]: fingerprint(c, ch) for c in cls}
